@@ -384,6 +384,10 @@ def pack (dotu : Bool) (m : Msg) (buf : Bytes) : R Bytes :=
 def setTag (pkt : Bytes) (tag : UInt16) : R Bytes :=
   if pkt.length < 7 then .panic else .ok (pkt.take 5 ++ p16 tag ++ pkt.drop 7)
 
+/-- `SetTag` on a reply whose packet still is the whole buffer (between `InitRread` and
+    `SetRreadCount`): bytes 5 and 6 of the buffer -/
+def tagBuf (b : Bytes) (tag : UInt16) : Bytes := b.take 5 ++ p16 tag ++ b.drop 7
+
 /-- `InitRread(fc, count)` on `fc.Buf = buf`: the buffer afterwards (header and count
     written, data window untouched) and the packet size.  After the fix `size` is computed
     in `int`, so `4 + count` cannot wrap. -/
